@@ -583,7 +583,7 @@ fn gen_cfg() -> GenCfg {
         traceparent: false,
         max_depth: 6,
         max_fan: 4,
-        max_nodes: if cfg!(miri) { 9 } else { 40 },
+        max_nodes: if cfg!(miri) { 8 } else { 40 },
     }
 }
 
@@ -685,11 +685,17 @@ fn main() {
     }
 
     let seed = args.seed;
-    let n = args.n(2_000, 100_000);
+    // Miri interprets ~1000x slower: a fixed small number of trees there, whatever the scale
+    let n = if cfg!(miri) { args.get_u64("trees", 10) } else { args.n(4_000, 100_000) };
     par_cases(&mut r, &args, n, |i, r| {
         let tree = case_tree(seed, i);
-        eval::<EnvGeneric>(r, seed, i, &tree);
-        eval::<EnvAmbient>(r, seed, i, &tree);
+        // natively every tree runs on both runtimes; under Miri (seconds per tree) they alternate
+        if !cfg!(miri) || i % 2 == 0 {
+            eval::<EnvGeneric>(r, seed, i, &tree);
+        }
+        if !cfg!(miri) || i % 2 == 1 {
+            eval::<EnvAmbient>(r, seed, i, &tree);
+        }
     });
 
     let orphans = ORPHANS.take();
